@@ -8,24 +8,57 @@ CONFIG = dict(
                "system pop before user pop (system_first), and no quiescent state with deliverable work (no_lost_wakeup, via an inductive 5-part invariant "
                "of a counter abstraction that the fine model provably refines); while deliverable work is pending some existing thread has an enabled step "
                "(pending_work_can_progress), and from EVERY reachable state the existing threads alone — no further post — can run the mailbox to a quiescent state in which "
-               "everything posted so far has been handed over (can_always_drain: explicit scheduler, potential function decreasing on each of its steps). The fine model is tied to the real SmoothFrameMailbox (real goring/mpsc) on "
+               "everything posted so far has been handed over (can_always_drain: explicit scheduler, potential function decreasing on each of its steps; this is the POSSIBILITY form of "
+               "'eventually processed'). The FOR-ALL form is x_every_schedule_drains: from every reachable state EVERY schedule of existing threads — any interleaving, no fairness assumed, "
+               "panicking handlers included — that does not declare the frame budget exhausted has at most Phi steps (the potential decreases on every such step, not only on the drain "
+               "scheduler's), adds nothing to the posted logs, and when it cannot be extended the state is quiescent with everything posted handed over; while work is pending such a step is "
+               "enabled (x_pending_work_has_progress_step). What stays assumed: the Go scheduler / dispatcher eventually run a runnable goroutine / queued function, and the clock does not "
+               "exhaust the budget at every iteration. "
+               "The extended model FineX (Model/MailboxX.lean) adds what Fine leaves out of run(): the throughput counter and its 'if i > t { i = 0 }' branch, handlers that PANIC "
+               "(recover, EscalateFailure, run() returns to the store-idle/re-check sequence) and the MaxMsgNumToSmooth branch (budget exhausted with >= 100000 queued: Gosched and "
+               "continue, no pause); every theorem above is proved again for every schedule of FineX and every throughput (x_single_runner, x_delivered_prefix, "
+               "x_delivered_is_prefix_of_posted, x_no_lost_wakeup, x_quiescent_all_delivered, x_pause_has_helper, x_can_always_drain), plus: a panicking handler costs exactly its own "
+               "message and sends the consumer through the re-check (x_panic_hands_over_and_returns, x_escalated_were_delivered); the loop counter, Throughput() and the wrap branch "
+               "influence nothing else (x_throughput_counter_inert); system-first along whole schedules: when a user message is handed over, every system message pushed before the "
+               "consumer's latest system pop has been handed over (x_system_first_trace, ghost sysSeen); and whoever calls dispatcher.Schedule for this mailbox — poster, helper or the "
+               "consumer re-scheduling itself on the dispatcher's own goroutine — finds no run of this mailbox queued (schedule_call_finds_queue_empty), so with a dispatcher of its own "
+               "(service/factory.go) the blocking 9-slot send cannot block the loop goroutine on itself. The fine model is tied to the real SmoothFrameMailbox (real goring/mpsc) on "
                "every run: all goroutines are parked at build-tag yield points before each atomic step, a controller drives seeded schedules (uniform, sticky, "
                "adversarial around the store-idle/re-read window, consumer-first), and after EVERY step the five shared words, the consumer's program point, the "
-               "dispatcher queue and the invoked message are compared with the model; the property predicate runs on the implementation's own trace. "
+               "dispatcher queue, the invoked message, the message handed to EscalateFailure and the number of processMessages runs that exist (queued at the dispatcher + schedule() callers parked "
+               "before dispatcher.Schedule + the consumer before its store-idle: counted by the harness from its own queue and parked goroutines, the quantity single_runner bounds) are compared "
+               "with the model; the dispatcher's Throughput() is a per-case parameter (0,1,2,3,5,8 and the real 99; backlog cases queue >100 messages before the consumer moves) so that "
+               "the throughput branch is taken in every run, and 1/4 of the cases have panicking user/system handlers; whether the frame budget is exhausted at an iteration is decided by the harness from the VIRTUAL CLOCK "
+               "(now - start of the run > 10 ms), not copied from where the implementation went, so the model's choice pause / Gosched branch / carry on is an independent prediction; "
+               "the property predicate runs on the implementation's own trace (incl.: at most one run exists, what is escalated is the message just invoked, the case reaches quiescence "
+               "within the controller's step limit). "
                "The system queue (mpsc.Queue, Vyukov) is also proved as a CONCURRENT object: Push split into its swap and its link, any number of producers, every "
                "interleaving — delivery is a prefix of the swap order (exactly once, global and per-producer FIFO), Pop answers nil only when nothing is pending or the "
                "oldest pending node's link is missing, quiescence makes everything visible, the pending links reveal everything; composed with the wake-up protocol "
                "(counter incremented after both steps) the mailbox invariant and no_lost_wakeup are unaffected. Tied to the real queue by run mpsc: producer/consumer "
                "goroutines parked before the swap, between swap and link, and before each Pop. "
-               "Several mailboxes on one scheDisp (9-slot channel, one loop goroutine): for every sequence of posts and handler releases the channel stays within 9 slots, every "
+               "Several mailboxes on one scheDisp (9-slot channel, one loop goroutine): for every sequence of foreign posts, posts made BY THE HANDLER that occupies the loop goroutine "
+               "(selfPost) and handler releases the channel stays within 9 slots, every "
                "pending message has a buffered/blocked/executing run, per mailbox delivered ++ pending = posted in order, and an idle loop means everything was delivered "
-               "(sched_*); tied to the real scheDisp + run service + real mailboxes by run sched, which also demands loop-goroutine-only and never-two-at-a-time.",
+               "(sched_*). Schedule is a blocking send whose only receiver is the loop goroutine: a handler that must hand a sibling's run to the dispatcher while all 9 slots are taken "
+               "blocks the loop on itself for ever — the model has that state (stuck) and the theorems say exactly when: only with a handler executing and 9 runs buffered "
+               "(sched_loop_blocks_only_when_full), then nothing is ever delivered again (sched_loop_block_is_forever; reproduced on the real scheDisp: one handler posting to 10 idle siblings), "
+               "never with at most 9 mailboxes on the dispatcher (sched_few_mailboxes_never_block, pigeonhole), and outside that state a returning handler drains everything "
+               "(sched_release_delivers_all); tied to the real scheDisp + run service + real mailboxes by run sched (handler posts included, kept where a slot is free or the target is "
+               "already scheduled), which also demands loop-goroutine-only and never-two-at-a-time.",
     level_note="Partial: atomics are assumed sequentially consistent single steps; in the mailbox's Fine model goring/mpsc are FIFO lists and mpsc.Push is one step "
                "(sequential refinement to a list, ring growth included: ring_*/mpsc_push_refines/mpsc_pop_refines, run ring; mpsc's swap/link window and arbitrary producer "
                "interleavings: mpsc_delivers_swap_order … mailbox_no_lost_wakeup_split_push, run mpsc; that Fine with the split push refines the composed system beyond the "
-               "system-queue/wake-up part is argued in Props/C09Mpsc.lean, not proved; goring's concurrent behaviour rests on its mutex); run()'s plain read of userMessages, the >=100000-queued Gosched branch and the recover/EscalateFailure path are not modelled; "
+               "system-queue/wake-up part is argued in Props/C09Mpsc.lean, not proved; goring's concurrent behaviour rests on its mutex); in the split-push window system-first does NOT hold in the code: a system message whose PostSystemMessage has returned is "
+               "invisible to Pop while an earlier producer sits between its swap and its link, and user messages overtake it (reproduced; x_system_first_trace is about the atomic-push model); "
+               "run()'s plain read of userMessages is taken to return the current value; the >=100000-queued Gosched branch is modelled and covered by the x_* theorems but NOT reached by the "
+               "correspondence run (it needs 100000 queued messages); nil messages are outside the model (ids are values): the code takes a popped nil for 'queue empty', never decrements the "
+               "counter and re-schedules itself for ever (reproduced); several mailboxes on one scheDisp: the consumer's own re-schedule from the loop goroutine is not in the SchedDisp model "
+               "(a run is atomic there) — by the same count it is safe with at most 9 mailboxes; 'eventually' is proved for every schedule that does not declare the frame budget exhausted (x_every_schedule_drains) and as possibility in general (can_always_drain): the model "
+               "lets the budget be declared exhausted at any iteration, so an adversarial clock can pause for ever (cost is about 0 at the first iteration of a real run; that fact is not in the model); "
+               "goring.Pop's lock-free Empty() pre-check is proved sound against interleaved atomic pushes (ring_pop_precheck_sound) at the level of the ring model, not driven at that granularity; "
                "the dispatcher is the single-consumer scheDisp (one goroutine runs scheduled functions in turn). The Go scheduler itself is replaced by the controller.",
-    lean_targets=["Cell2v.Props.C09", "Cell2v.Props.C09Ring", "Cell2v.Props.C09Mpsc", "Cell2v.Props.C09Sched", "modeld_c09"],
+    lean_targets=["Cell2v.Props.C09", "Cell2v.Props.C09X", "Cell2v.Props.C09Ring", "Cell2v.Props.C09Mpsc", "Cell2v.Props.C09Sched", "modeld_c09"],
     driver="modeld_c09",
     driver_root="Cell2v.Driver.C09",
     audit="Audit/C09.lean",
@@ -35,7 +68,12 @@ CONFIG = dict(
                        "mpsc_chain_invariant", "mpsc_delivers_swap_order", "mpsc_per_producer_fifo", "mpsc_pop_blocked_only_by_unlinked",
                        "mpsc_pop_delivers_oldest", "mpsc_quiescent_all_visible", "mpsc_link_reveals",
                        "mailbox_pushS_is_swap_link", "mailbox_popS_is_list_pop", "mailbox_sysqueue_invariant", "mailbox_no_lost_wakeup_split_push",
-                       "sched_channel_bounded", "sched_exactly_once_in_order", "sched_idle_all_delivered", "sched_idle_delivered_eq_posted", "sched_pending_has_run", "sched_blocked_only_when_full", "pending_work_can_progress", "can_always_drain"],
+                       "sched_channel_bounded", "sched_exactly_once_in_order", "sched_idle_all_delivered", "sched_idle_delivered_eq_posted", "sched_pending_has_run", "sched_blocked_only_when_full", "pending_work_can_progress", "can_always_drain",
+                       "sched_loop_blocks_only_when_full", "sched_loop_block_is_forever", "sched_few_mailboxes_never_block", "sched_release_delivers_all",
+                       "x_reachable_inv", "x_base_step_is_fine_step", "x_single_runner", "x_delivered_prefix", "x_delivered_is_prefix_of_posted", "x_no_lost_wakeup",
+                       "x_quiescent_all_delivered", "x_pause_has_helper", "x_panic_hands_over_and_returns", "x_escalated_were_delivered", "x_system_first_trace",
+                       "x_throughput_counter_inert", "x_can_always_drain", "schedule_call_finds_queue_empty",
+                       "x_every_schedule_drains", "x_pending_work_has_progress_step", "ring_pushes_refine", "ring_pop_precheck_sound"],
     # hook H2 (vy("mp.swap") / vy("mp.link") / vy("mp.pop") in actorex/queue/mpsc) is committed in /repo as 3b9fc55
     harness_pkg="./c09",
     mode="diff",
@@ -66,22 +104,33 @@ CONFIG = dict(
          "per step: delivered ids, invocations off the loop goroutine, handlers in flight, blocked posters. "
          "Run main additionally: slow SYSTEM handlers (pause started by a system message, incl. the directed suspend / slow system message / resume template) and schedule mode 4 "
          "(delay-bounded victim: one poster takes 1-4 steps exactly when the consumer is about to store idle, then is held until the consumer finished going idle); "
-         "1/5 of the 2-6-message senders post an actor.MessageBatch (raw or inside a MessageEnvelope): the mailbox posts the elements, then the batch message itself",
+         "1/5 of the 2-6-message senders post an actor.MessageBatch (raw or inside a MessageEnvelope): the mailbox posts the elements, then the batch message itself; "
+         "every case has a dispatcher throughput (reset t=: 99 in half of the cases, else 0/1/2/3/5/8) so run() takes its 'i > t' branch after t+1 messages of one run; 1/40 of the cases are "
+         "backlog cases (3 senders x 35-45 messages, throughput 99, schedule mode 5: the posters finish before the consumer moves, so one run handles >100 messages, ring growth to 160 slots); "
+         "1/4 of the cases have panicking handlers (each user message 1/4, each normal system message 1/3: the handler panics after being logged, run() recovers, EscalateFailure is observed). "
+         "Run sched additionally: the gated handler takes commands and posts FROM THE LOOP GOROUTINE to siblings / its own mailbox (systematic: k=0..8 foreign posts, then the handler fills the "
+         "channel to exactly 9, one more post to an already scheduled mailbox and one to its own; random: 1/3 of the while-busy posts in half of the rounds, only where a slot is free or the target "
+         "is already scheduled; a selfpost with no handler executing posts nothing)",
     trusted_base=[
         "Lean 4.33.0 kernel; axioms audited per theorem (propext, Classical.choice, Quot.sound)",
-        "hand-written models lean/Cell2v/Model/Mailbox.lean (Abs + Fine) tied to actorex/mailbox/mailbox.go by step-by-step replay (harness/c09 + modeld_c09)",
+        "hand-written models lean/Cell2v/Model/Mailbox.lean (Abs + Fine) and lean/Cell2v/Model/MailboxX.lean (FineX = Fine + throughput counter + panicking handlers + "
+        "MaxMsgNumToSmooth branch) tied to actorex/mailbox/mailbox.go by step-by-step replay (harness/c09 + modeld_c09 replays FineX)",
         "build-tag hook b43fb0c (vy yield points, VerifState) — add-only, empty when the tag is off",
         "build-tag hook H2 (harness/c09/overlay-mpsc/h2.patch: vy(\"mp.swap\"), vy(\"mp.link\"), vy(\"mp.pop\") in actorex/queue/mpsc, VerifYield) — add-only, empty when the tag is off; committed in /repo as 3b9fc55",
         "go1.26.8 testing/synctest for 'all goroutines parked' detection and virtual time",
         "sync/atomic sequential consistency; goring operations are atomic single steps (mutex); mpsc at the granularity of one shared access per step "
         "(swap of head | store of prev.next | Pop = one atomic load of tail.next plus consumer-private work | Empty); node allocation/initialisation is goroutine-local",
         "hand-written model lean/Cell2v/Model/MpscConc.lean (concurrent mpsc) tied to actorex/queue/mpsc by harness/c09/mpsc_test.go (controller-driven real goroutines)",
-        "hand-written model lean/Cell2v/Model/SchedDisp.lean (dispatcher channel with several mailboxes; Go channel: blocked senders are admitted FIFO) tied to actorex/disp/schedisp.go by harness/c09/sched_test.go",
+        "hand-written model lean/Cell2v/Model/SchedDisp.lean (dispatcher channel with several mailboxes; Go channel: blocked senders are admitted FIFO) tied to actorex/disp/schedisp.go by harness/c09/sched_test.go (foreign posts and posts by the handler on the loop goroutine)",
         "hand-written models lean/Cell2v/Model/Ring.lean (goring ring buffer, sequential mpsc) tied to actorex/queue/{goring,mpsc} by harness/c09/ring_test.go",
     ],
     assumptions=[
         "dispatcher = one goroutine running scheduled functions in turn (actorex/disp/schedisp.go); C04 covers that",
-        "fewer than 100000 queued user messages (the Gosched branch of run() is not modelled)",
-        "handlers do not panic (recover/EscalateFailure path not modelled)",
+        "the >=100000-queued Gosched branch of run() is modelled and proved (iterGosched) but not exercised by the correspondence run",
+        "messages are non-nil (a nil user or system message is taken for 'queue empty': consumed, counter never decremented, the mailbox re-schedules itself for ever)",
+        "system-first is relative to what mpsc.Pop can see: during another producer's swap/link window a completely posted system message is invisible and user messages overtake it",
+        "one mailbox per scheDisp (as service/factory.go builds them) or at most 9 mailboxes on it; beyond that a handler posting to an idle sibling (or the consumer's own re-schedule) "
+        "while 9 runs are buffered blocks the loop goroutine on its own channel for ever (sched_loop_block_is_forever)",
+        "EscalateFailure itself does not panic (a panic inside the deferred recover handler would unwind processMessages before the store-idle)",
     ],
 )
